@@ -200,7 +200,7 @@ example :
     · intro dec fmt sep hk
       simp only [Field.mk', Kind.flt.injEq] at hk
       obtain ⟨rfl, rfl, rfl⟩ := hk
-      exact Or.inr (Or.inr ⟨Or.inl rfl, false, _, _, rfl, Or.inl ⟨by decide, by decide, by decide, by decide⟩⟩)
+      exact Or.inr (Or.inr ⟨Or.inl rfl, false, _, _, rfl, Or.inl (Proofs.FloatE.wfE_of_wfn _ _ _ ⟨by decide, by decide, by decide, by decide⟩ (by decide))⟩)
     · intro dec fmt sep hk; simp [Field.mk'] at hk
 
 end Props.C10
